@@ -117,8 +117,10 @@ class BestBatchSampler(BaseSampler):
             batch_size,
             size=batch_size,
         )
-        sampled_points: NDArray[np.float64] = np.copy(
+        # a float copy: shocks are fractions of the precision, also when the history is held as integers
+        sampled_points: NDArray[np.float64] = np.array(
             candidate_points[candidate_point_indexes],
+            dtype=np.float64,
         )
 
         beta_binom_rv = betabinom(n=search_space.dims - 1, a=self.a, b=self.b)
